@@ -161,8 +161,18 @@ class Loader(importlib.machinery.SourceFileLoader):
             ops = dict(d["COMPARISON_OPERATORS"])
             ops[ast.Is] = sym.sym_is
             ops[ast.IsNot] = sym.sym_is_not
-            ops[ast.In] = sym.sym_contains
-            ops[ast.NotIn] = sym.sym_not_contains
+            # only where a proxy meets a hash-based container; everything else goes through the package's own
+            # entries, so a change to them stays visible
+            def _wrap(orig, symbolic):
+                def op(x, y):
+                    if isinstance(y, (set, frozenset, dict)) and (sym.is_sym(x) or any(sym.is_sym(k) for k in y)):
+                        return symbolic(x, y)
+                    return orig(x, y)
+
+                return op
+
+            ops[ast.In] = _wrap(ops[ast.In], sym.sym_contains)
+            ops[ast.NotIn] = _wrap(ops[ast.NotIn], sym.sym_not_contains)
             d["COMPARISON_OPERATORS"] = types.MappingProxyType(ops)
         if module.__name__ == "pyrefact.symbolic_math":
             real = d.get("sympy")
